@@ -340,18 +340,23 @@ def check(ctx):
         for t, v, s, k in iter_stores(main):
             if isinstance(t, ast.Name) and t.id == msg_var and isinstance(v, ast.Constant) and isinstance(v.value, str) and v.value:
                 m = re.search(r"options\['(\w+)'\]", v.value)
-                opt_name = m.group(1) if m else None
+                named = m.group(1) if m else None
                 par = prog.parent(s)
-                if not isinstance(par, ast.If) or opt_name not in table:
-                    ctx.fail(opt, s, "a termination message is assigned outside a test of the stopping condition it names", construct=f"message for {opt_name}")
+                if not isinstance(par, ast.If):
+                    ctx.fail(opt, s, "a termination message is assigned outside a test of a stopping condition", construct=f"message for {named}")
                     continue
-                okg = table[opt_name](par.test)
+                cond = [name for name, pred in table.items() if pred(par.test)]
+                if not cond:
+                    ctx.fail(opt, s, f"a termination message is assigned under '{canon(par.test)[:70]}', which is none of the four stopping conditions (budget, max_iter, tol_mesh, stall)", construct=f"message under {canon(par.test)[:60]}")
+                    continue
                 sets = any(isinstance(x, ast.Assign) and isinstance(x.value, ast.Constant) and x.value.value is True for x in par.body)
-                seen.add(opt_name)
-                ctx.check(okg and sets, opt, s, f"message naming {opt_name} under its own stopping test", f"the message naming options['{opt_name}'] is assigned under '{canon(par.test)[:70]}', which is not that stopping condition (or does not stop the run)", construct=f"message {opt_name} under {canon(par.test)[:60]}")
+                seen.add(cond[0])
+                okname = named is None or named not in table or named == cond[0]
+                ctx.check(okname and sets, opt, s, f"message of the {cond[0]} stop under its own test",
+                          f"the message naming options['{named}'] is assigned under the {cond[0]} stopping test '{canon(par.test)[:60]}' (or that branch does not stop the run)", construct=f"message {named} under {cond[0]} test")
         for name in table:
             if name not in seen:
-                ctx.fail(opt, main, f"no termination message names options['{name}']", construct=f"<missing message for {name}>")
+                ctx.fail(opt, main, f"the {name} stopping condition sets no termination message", construct=f"<missing message for {name}>")
         # stored after the last message assignment in the body
         last_msg = max((s.lineno for t, v, s, k in iter_stores(main) if isinstance(t, ast.Name) and t.id == msg_var), default=0)
         ctx.check(tm_store.lineno > last_msg, opt, tm_store, "termination_msg stored after all stopping tests", "optim_state['termination_msg'] is stored before a later stopping test can change the message", construct="termination_msg store order")
